@@ -17,7 +17,8 @@ VARIABLES l, bad
 tvars == <<l, bad>>
 
 Reason(e) ==
-  IF Len(e.kids) # e.n \/ ~SizeOK(e.kids, e.size) THEN "harness-size-witness"
+  IF e.panic THEN "traversal-panicked"
+  ELSE IF Len(e.kids) # e.n \/ ~SizeOK(e.kids, e.size) THEN "harness-size-witness"
   ELSE IF ~InverseOK(e.pre, e.pos, e.n)  THEN "preorder-not-every-node-exactly-once"
   ELSE IF ~InverseOK(e.post, e.ppos, e.n) THEN "postorder-not-every-node-exactly-once"
   ELSE IF ~PrePosOK(e.kids, e.size, e.pos)  THEN "preorder-differs-from-recursive-order"
